@@ -7,7 +7,7 @@ from av import attach, gen, ref
 MANIFEST_ENTRY = {
     "category": "exploration",
     "technique": "runtime contracts (post-conditions) on every real call of Program.get_prop_covered / get_capacity and paired-call relational monitors (monotonicity, dt-independence, overwrite precedence) on the real ProgramSet methods over generated programs and instructions",
-    "text": "Generated programs (one-off and continuous, optional per-year or absolute capacity constraints, optional saturation, time-varying stepped series, zero eligible, tiny unit costs, huge or zero spending) are pushed through the real ProgramSet.get_alloc / get_capacities / get_prop_coverage and Program.get_capacity / get_prop_covered. Each call is checked against the stated bounds (in [0,1], <= capacity/eligible, <= saturation, equality when unconstrained and < 1, 1 or the saturation level when nobody is eligible); pairs of calls differing only in spending / unit cost check monotonicity; one-off capacity/dt is compared across step sizes; random combinations of spending, capacity and coverage overwrites check the stated precedence and the stepped interpolation. The same post-conditions are attached to the calls the integrator makes in whole-model runs with library program sets. Overwrites are TimeSeries or plain numbers (including 0, 0.0 and numpy scalars); Program.get_capacity is also called directly with the caller's own spending array, which must be unchanged afterwards and give the same answer twice.",
+    "text": "Generated programs (one-off and continuous, optional per-year or absolute capacity constraints, optional saturation, time-varying stepped series, zero eligible, tiny unit costs, huge or zero spending) are pushed through the real ProgramSet.get_alloc / get_capacities / get_prop_coverage and Program.get_capacity / get_prop_covered. Each call is checked against the stated bounds (in [0,1], <= capacity/eligible, <= saturation, equality when unconstrained and < 1, 1 or the saturation level when nobody is eligible); pairs of calls differing only in spending / unit cost check monotonicity; one-off capacity/dt is compared across step sizes; random combinations of spending, capacity and coverage overwrites check the stated precedence and the stepped interpolation. The same post-conditions are attached to the calls the integrator makes in whole-model runs with library program sets. Overwrites are TimeSeries or plain numbers (including 0, 0.0 and numpy scalars); Program.get_capacity is also called directly with the caller's own spending array, which must be unchanged afterwards and give the same answer twice. The expected program type is derived from the unit-cost units as entered; a third of the programs have these units switched after a first use.",
     "note": "An absolute capacity constraint on a one-off program is per step by documentation and is excluded from the dt-independence clause.",
 }
 
